@@ -130,6 +130,79 @@ def constructor_matrix():
     return fn
 
 
+def options_reach_device():
+    """port / baud / timeout / reconnect_timeout / host:port take effect where they matter: the
+    threaded connect loops hand them to the device constructor and wait reconnect_timeout between
+    attempts (one failing attempt is observed, then the gateway is stopped)."""
+    def fn(w):
+        import time as _t
+        from mysensors import gateway_serial, gateway_tcp
+        from symex.core import prog
+        which = w.pick(["serial", "tcp"], "gateway")
+        env = C.make_env(w)
+        calls = []
+        kw = {}
+        if w.flag("timeout"):
+            kw["timeout"] = w.fresh_real("timeout", 0)
+        if w.flag("reconnect_timeout"):
+            kw["reconnect_timeout"] = w.fresh_real("reconnect_timeout", 0)
+        with env.installed():
+            if which == "serial":
+                import serial
+                if w.flag("baud"):
+                    kw["baud"] = w.fresh_int("baud", 1)
+                gw = w.new(gateway_serial.SerialGateway, "/dev/ttyX", **kw)
+
+                def dev(a, k):
+                    calls.append((list(a), dict(k)))
+                    raise prog(serial.SerialException("no device"))
+                env.add(serial.serial_for_url, dev, "serial.serial_for_url")
+                loop = gateway_serial.sync_connect
+            else:
+                import socket
+                if w.flag("port"):
+                    kw["port"] = w.fresh_int("port", 1, 65535)
+                gw = w.new(gateway_tcp.TCPGateway, "10.0.0.7", **kw)
+
+                def dev(a, k):
+                    calls.append((list(a), dict(k)))
+                    raise prog(OSError("refused"))
+                env.add(socket.create_connection, dev, "socket.create_connection")
+                loop = gateway_tcp.sync_connect
+            tr = gw.tasks.transport
+            sleeps = []
+
+            def sleeper(a, k):
+                sleeps.append(a[0])
+                tr.protocol = None  # the user stops the gateway while the loop waits
+            env.add(_t.sleep, sleeper, "time.sleep")
+            w.info = {"gateway": which, "options": sorted(kw)}
+            with env.installed():
+                try:
+                    w.call(loop, tr)
+                except Exception as exc:
+                    w.escaped(exc, f"{which} connect loop raised")
+            w.check(len(calls) == 1 and len(sleeps) == 1, "connect loop did not try the device once")
+            a, k = calls[0]
+            flat = list(a) + list(k.values())
+            if which == "serial":
+                w.check(len(a) >= 1 and a[0] == "/dev/ttyX", "port option does not reach the device")
+                baud = a[1] if len(a) > 1 else k.get("baudrate", k.get("baud"))
+                w.check(baud is not None and w.truth(w.eq(baud, kw.get("baud", 115200))),
+                        "baud option does not reach the device")
+                w.check("timeout" in k and w.truth(w.eq(k["timeout"], kw.get("timeout", 1.0))),
+                        "timeout option does not reach the device")
+            else:
+                addr = a[0] if a else k.get("address")
+                w.check(addr is not None and addr[0] == "10.0.0.7" and
+                        w.truth(w.eq(addr[1], kw.get("port", 5003))),
+                        "host / port options do not reach the socket")
+            w.check(w.truth(w.eq(sleeps[0], kw.get("reconnect_timeout", 10.0))),
+                    "reconnect_timeout option is not the delay between connect attempts")
+            w.goal(which)
+    return fn
+
+
 def version_grid():
     grid = []
     for major in range(0, 4):
@@ -188,6 +261,11 @@ def build(tier):
                 {"classes": sorted(classes()), "options": "every subset of the documented keyword "
                  "options; scalar values symbolic"}, goals=["constructed"],
                 doc="cooperative __init__ chains interpreted; each option observable"),
+        Harness("options-reach-device", options_reach_device(),
+                {"gateways": ["SerialGateway", "TCPGateway"], "values": "symbolic baud / port / "
+                 "timeout / reconnect_timeout", "attempts": 1},
+                goals=["serial", "tcp"],
+                doc="threaded connect loops hand the options to the device constructor"),
         Harness("version-selection", version_selection(grid),
                 {"grid": "major 0..3 x minor 0..12 x patch absent/0..3", "extra": [str(x) for x in EXTRA]},
                 goals=[f"floor-{a}.{b}" for a, b in SUPPORTED],
